@@ -570,25 +570,10 @@ def run(ctx):
     for profile in (["current"] if not thorough else ["current", "legacy"]):
         try:
             mseed = rng.randrange(1 << 30)
-            m = fit_real(profile, meter(random.Random(mseed), "weekday_weekend", n=365, noise=0.2))
-            first_keys = sorted(map(str, m.params.submodels))
-            dfB = meter(random.Random(mseed + 1), "heating", n=365, noise=1.0)
-            dfB["temperature"] = dfB["temperature"] + 9.0
-            m = fit_real(profile, dfB, model=m)
-            case = dict(profile=profile, kind="heating after weekday_weekend on the same model object", meter_seed=mseed)
-            keys, want = sorted(map(str, m.params.submodels)), sorted(m.best_combination.split("__"))
+            fails_, changed = refit_scenario(profile, mseed)
             res["evaluations"] += 1
-            if keys != want:
-                res["oracle_failures"].append(dict(clause="stored_submodels_are_those_of_the_selected_split", case=case, stored=keys, selected_split=want,
-                                                   first_fit_stored=first_keys))
-            Tb = dfB["temperature"].to_numpy(dtype=float)
-            for key, sub in m.params.submodels.items():
-                tc = dict(sub.temperature_constraints)
-                if not (min(Tb) - 1e-9 <= tc["T_min"] and tc["T_max"] <= max(Tb) + 1e-9):
-                    res["oracle_failures"].append(dict(clause="recorded_limits_are_those_of_the_days_fitted", case=case, component=str(key),
-                                                       recorded=[tc["T_min"], tc["T_max"]], baseline_temperature_range=[float(min(Tb)), float(max(Tb))]))
-                    break
-            sigs.add(("refit_same_object", profile, first_keys != keys))
+            res["oracle_failures"] += fails_
+            sigs.add(("refit_same_object", profile, changed))
         except Exception as e:  # noqa
             res["hist"][f"refit_scenario_failed:{type(e).__name__}"] = res["hist"].get(f"refit_scenario_failed:{type(e).__name__}", 0) + 1
 
@@ -629,6 +614,32 @@ def run(ctx):
 
 
 # --------------------------------------------------------------------------- known findings / replay
+REFIT_KIND = "heating after weekday_weekend on the same model object"
+
+
+def refit_scenario(profile, mseed):
+    """one model object: fit a weekday/weekend building, then a (warmer) heating building.  Returns (failures, split changed?)"""
+    m = fit_real(profile, meter(random.Random(mseed), "weekday_weekend", n=365, noise=0.2))
+    first_keys = sorted(map(str, m.params.submodels))
+    dfB = meter(random.Random(mseed + 1), "heating", n=365, noise=1.0)
+    dfB["temperature"] = dfB["temperature"] + 9.0
+    m = fit_real(profile, dfB, model=m)
+    case = dict(profile=profile, kind=REFIT_KIND, meter_seed=mseed)
+    keys, want = sorted(map(str, m.params.submodels)), sorted(m.best_combination.split("__"))
+    fails = []
+    if keys != want:
+        fails.append(dict(clause="stored_submodels_are_those_of_the_selected_split", case=case, stored=keys, selected_split=want,
+                          first_fit_stored=first_keys))
+    Tb = dfB["temperature"].to_numpy(dtype=float)
+    for key, sub in m.params.submodels.items():
+        tc = dict(sub.temperature_constraints)
+        if not (min(Tb) - 1e-9 <= tc["T_min"] and tc["T_max"] <= max(Tb) + 1e-9):
+            fails.append(dict(clause="recorded_limits_are_those_of_the_days_fitted", case=case, component=str(key),
+                              recorded=[tc["T_min"], tc["T_max"]], baseline_temperature_range=[float(min(Tb)), float(max(Tb))]))
+            break
+    return fails, first_keys != keys
+
+
 def _replay_case(w):
     I = _impl()
     settings = I["DailyModel"]().settings
@@ -636,6 +647,8 @@ def _replay_case(w):
         r = build_result(I, settings, w["case"])
         return oracle(I, r)
     case = w["case"]
+    if case.get("kind") == REFIT_KIND:
+        return refit_scenario(case["profile"], case["meter_seed"])[0]
     df = meter(random.Random(case["meter_seed"]), case["kind"])
     m = fit_real(case["profile"], df)
     fails = []
